@@ -2,7 +2,7 @@
    every recorded segment at crash points (optionally followed by zero bytes) and ran the real reader functions. *)
 From Coq Require Import List ZArith Bool.
 Require Import MTX.Lib.IntWrap MTX.Model.C24_MulDiv MTX.Model.C28_SegRead.
-Require Export MTX.Model.C27_Fmp4Rec MTX.Model.C27_Segmenter.
+Require Export MTX.Model.C27_Fmp4Rec MTX.Model.C27_Segmenter MTX.Model.C27_Rewrite.
 Import ListNotations.
 Local Open Scope Z_scope.
 
@@ -43,7 +43,12 @@ Inductive case :=
   (* units written to a stream recorded by the real Recorder (gate included); outcomes are not observable *)
 | CRec (s : stream) (o : obs)
   (* the same as CSeg in a child process under strace *)
-| CStrace (s : stream) (files : list ofile).
+| CStrace (s : stream) (files : list ofile)
+  (* a closed recorded segment (ftyp, moov, mvhd box lengths; parts; elapsed time at the end of every part; duration
+     given to OnSegmentComplete) in the state after k of the Write calls ws = (offset, length) that the real
+     writeDuration makes on it; field = DurationV0 in that state (read from the bytes by the driver); o = the duration
+     the real /list code (parseAndConcatenate) reports for the file *)
+| CTorn (fl ml vl : Z) (parts : list (Z * Z)) (durs : list Z) (reported : Z) (ws : list (Z * Z)) (k field : Z) (o : zobs).
 
 Definition zobs_eqb (a b : zobs) : bool :=
   match a, b with
@@ -273,19 +278,9 @@ Definition file_wlog (f : ofile) : list wop :=
   end.
 Definition writes_of (ops : list (Z * Z * Z)) : list (Z * Z) :=
   flat_map (fun o => match o with (k, a, b) => if k =? 1 then [(a, b)] else [] end) ops.
-(* consecutive writes that continue each other are one region *)
-Fixpoint merge_writes (l : list (Z * Z)) : list (Z * Z) :=
-  match l with
-  | (a, n) :: r =>
-      match merge_writes r with
-      | (b, m) :: r' => if (a + n =? b) && (0 <? m) then (a, n + m) :: r' else (a, n) :: (b, m) :: r'
-      | [] => [(a, n)]
-      end
-  | [] => []
-  end.
 Definition pair_eqb (a b : Z * Z) : bool := (fst a =? fst b) && (snd a =? snd b).
-(* observed: open, one write per appending entry of the log at the log's offsets, then the rewrite (possibly in
-   several write calls that continue each other), close last *)
+(* observed: open, one write per appending entry of the log at the log's offsets, then the rewrite as ONE write,
+   close last *)
 Definition file_mismatch (f : ofile) : bool :=
   match f with
   | OFile _ _ _ _ parts ops =>
@@ -293,13 +288,13 @@ Definition file_mismatch (f : ofile) : bool :=
       let n := S (length parts) in
       let ws := writes_of ops in
       negb (list_eqb pair_eqb (firstn n ws) (firstn n sh)
-            && list_eqb pair_eqb (merge_writes (skipn n ws)) (skipn n sh)
+            && list_eqb pair_eqb (skipn n ws) (skipn n sh)        (* the rewrite: ONE write (fix in /repo) *)
             && match ops with (0, _, _) :: _ => true | _ => false end
             && match rev ops with (3, _, _) :: _ => true | _ => false end)
   end.
 (* the property's write model on the observed calls alone: the header and every part are ONE write each at the
-   current end of the file (append only); whatever is written afterwards stays inside the moov box; nothing follows
-   the close *)
+   current end of the file (append only); what is written afterwards is ONE write that stays inside the moov box (so
+   that between system calls the header is either the old or the new one); nothing follows the close *)
 Fixpoint appends_fail (endpos : Z) (lens : list Z) (ws : list (Z * Z)) : bool * list (Z * Z) :=
   match lens with
   | [] => (false, ws)
@@ -314,7 +309,7 @@ Definition file_spec_fail (f : ofile) : bool :=
   | OFile _ fl ml _ parts ops =>
       let '(bad, rest) := appends_fail 0 ((fl + ml) :: map (fun md => fst md + snd md) parts) (writes_of ops) in
       bad || existsb (fun w => (fst w <? fl + 8) || (fl + ml <? fst w + snd w)) rest
-      || match rest with [] => true | _ => false end
+      || match rest with [_] => false | _ => true end       (* the duration rewrite is exactly one write *)
       || negb (Nat.eqb (length (filter (fun o => match o with (k, _, _) => k =? 3 end) ops)) 1)
       || match rev ops with (3, _, _) :: _ => false | _ => true end
   end.
@@ -327,6 +322,21 @@ Definition strace_mismatch (s : stream) (files : list ofile) : bool :=
                  (files_of x.(x_log)) files)
   || existsb file_mismatch files.
 
+(* ---- the duration rewrite cut between its Write calls ---- *)
+(* the log of the repaired code for the observed layout (payload bytes are irrelevant: zeros; timescale irrelevant) *)
+Definition torn_log (fl ml vl : Z) (parts : list (Z * Z)) (reported : Z) : list wop :=
+  close_log (zeros (fl - 8)) (zeros 8) (zeros 16) (zeros (vl - 28)) (zeros (ml - 8 - vl)) (map mk_part parts) reported.
+Definition torn_mismatch (fl ml vl : Z) (parts : list (Z * Z)) (durs : list Z) (reported : Z) (ws : list (Z * Z))
+           (k field : Z) (o : zobs) : bool :=
+  let lg := torn_log fl ml vl parts reported in
+  let n := S (length parts) in
+  (* the observed Write calls of the rewrite are the log's: one, at the mvhd payload, of its length *)
+  negb (list_eqb pair_eqb ws (skipn n (wlog_shape 0 lg)))
+  (* the duration field after k of them *)
+  || negb (field =? field_at (file_after (firstn (n + Z.to_nat k) lg)) (fl + 32))
+  (* what /list reports: the parts are scanned iff the header duration is 0 *)
+  || negb (zobs_eqb o (ZOk (if duration_read field =? 0 then last durs (-1) else duration_read field))).
+
 Definition mismatch (c : case) : bool :=
   match c with
   | CCrash init_len parts durs j z o =>
@@ -338,6 +348,7 @@ Definition mismatch (c : case) : bool :=
   | CSeg s o => negb (obs_eqb true (model_obs false s) o)
   | CRec s o => negb (obs_eqb false (model_obs true s) o)
   | CStrace s files => strace_mismatch s files
+  | CTorn fl ml vl parts durs reported ws k field o => torn_mismatch fl ml vl parts durs reported ws k field o
   end.
 
 (* ---- the property on the observed outputs only ---- *)
@@ -368,4 +379,12 @@ Definition spec_fail (c : case) : bool :=
   | CSeg s o => seg_spec_fail s o
   | CRec s o => rec_spec_fail s o
   | CStrace _ files => existsb file_spec_fail files
+  | CTorn _ _ _ _ durs reported _ _ _ o =>
+      (* every part of the file is complete and on disk: the listed duration reaches the end of the last part (to the
+         millisecond), or it is the duration recorded at close (CClosed: reported truncated to a millisecond);
+         otherwise complete parts on disk are not reported *)
+      match o with
+      | ZOk v => (v <? last durs 0 / 1000000 * 1000000) && negb (v =? reported / 1000000 * 1000000)
+      | ZErr | ZPanic => true
+      end
   end.
